@@ -17,11 +17,15 @@ Open Scope list_scope.
 Record srun := mksrun {
   r_sh : shell; r_now : N; r_cfg : cfg;
   r_seq : list (nat * nat);      (* upstream token -> index of the socket in order of creation *)
-  r_nseq : nat }.
+  r_nseq : nat;
+  r_v6 : bool; r_removed : bool }.
 
-Definition client_addr (ci : Z) : addr :=
-  mkaddr [127; 0; 0; 2 + Z.to_N (Z.modulo ci 4)]%N (10000 + Z.to_N ci)%N.
-Definition backend_addr (bi : Z) : addr := mkaddr [127; 0; 0; 1]%N (5000 + Z.to_N bi)%N.
+Definition v6_loopback : list N := [0;0;0;0;0;0;0;0;0;0;0;0;0;0;0;1]%N.
+Definition client_addr (v6 : bool) (ci : Z) : addr :=
+  if v6 then mkaddr v6_loopback (10000 + Z.to_N ci)%N
+  else mkaddr [127; 0; 0; 2 + Z.to_N (Z.modulo ci 4)]%N (10000 + Z.to_N ci)%N.
+Definition backend_addr (v6 : bool) (bi : Z) : addr :=
+  mkaddr (if v6 then v6_loopback else [127; 0; 0; 1]%N) (5000 + Z.to_N bi)%N.
 Definition listen_addr : addr := mkaddr [127; 0; 0; 1]%N 4000%N.
 
 Fixpoint note_opens (w : list wire) (seq : list (nat * nat)) (n : nat) : list (nat * nat) * nat :=
@@ -75,20 +79,22 @@ Definition sstep (st : srun) (op : list tok) : srun * list tok :=
       | TN wp :: TN resp :: TN req :: TN pp :: TN mf :: TN _nb :: rest =>
         let idle := match rest with TN i :: _ => Z.to_N i | _ => 30%N end in
         let every := match rest with _ :: TN e :: _ => Z.eqb e 1 | _ => false end in
+        let v6 := match rest with _ :: _ :: TN v :: _ => Z.eqb v 1 | _ => false end in
         let c := mkcfg [99; 49; 57]%N (Z.eqb wp 1) (Z.to_N resp) (Z.to_N req) (idle * 1000) (idle * 1000)
                        (Z.eqb pp 1) every in
         let cap := if Z.eqb mf 0 then 1000000%N else Z.to_N mf in
-        (mksrun (shell_new (mgr_new c cap 1500) listen_addr) (r_now st) c [] 0, [TS "setup"; TN 1])
+        (mksrun (shell_new (mgr_new c cap 1500) listen_addr) (r_now st) c [] 0 v6 false, [TS "setup"; TN 1])
       | _ => bad end
     else if name =? "send" then
       match args with
       | [TN ci; TB p; TN bi] =>
-        let src := client_addr ci in
-        let e := mkenv (if Z.ltb bi 0 then None else Some ([98; 48 + Z.to_N bi]%N, backend_addr bi)) true in
+        if r_removed st then (st, [TS "send"; TN ci; TN 0; TN (-1); TN (-1); TN (-1)]) else
+        let src := client_addr (r_v6 st) ci in
+        let e := mkenv (if Z.ltb bi 0 then None else Some ([98; 48 + Z.to_N bi]%N, backend_addr (r_v6 st) bi)) true in
         let '(sh1, w1) := shell_step enc_hash true (r_sh st) (r_now st) e [] (EClient src p) in
         let '(seq1, n1) := note_opens w1 (r_seq st) (r_nseq st) in
         match first_up w1 with
-        | None => (mksrun sh1 (r_now st) (r_cfg st) seq1 n1, [TS "send"; TN ci; TN 0; TN (-1); TN (-1); TN (-1)])
+        | None => (mksrun sh1 (r_now st) (r_cfg st) seq1 n1 (r_v6 st) false, [TS "send"; TN ci; TN 0; TN (-1); TN (-1); TN (-1)])
         | Some (tok, _) =>
           let b := match opened_backend w1 tok with
                    | Some b => Some b
@@ -101,7 +107,7 @@ Definition sstep (st : srun) (op : list tok) : srun * list tok :=
             then shell_step enc_hash true sh1 (r_now st) no_env [] (EUpstream tok reply)
             else (sh1, []) in
           let rt := match first_client w2 with Some d => Z.of_N (a_port d) - 10000 | None => -1 end in
-          (mksrun sh2 (r_now st) (r_cfg st) seq1 n1,
+          (mksrun sh2 (r_now st) (r_cfg st) seq1 n1 (r_v6 st) false,
            [TS "send"; TN ci; TN 1; TN bidx;
             match nget seq1 tok with Some k => tn_nat k | None => TN (-1) end; TN rt])
         end
@@ -110,7 +116,7 @@ Definition sstep (st : srun) (op : list tok) : srun * list tok :=
       match args with
       | TN ms :: _ =>
         let now := (r_now st + Z.to_N ms)%N in
-        (mksrun (fire_due 64 (r_sh st) now) now (r_cfg st) (r_seq st) (r_nseq st), [])
+        (mksrun (fire_due 64 (r_sh st) now) now (r_cfg st) (r_seq st) (r_nseq st) (r_v6 st) (r_removed st), [])
       | _ => bad end
     else if name =? "recluster" then
       match args with
@@ -119,8 +125,12 @@ Definition sstep (st : srun) (op : list tok) : srun * list tok :=
         let c' := mkcfg (c_cluster c) (Z.eqb wp 1) (c_responses c) (c_requests c) (c_front c) (c_back c)
                         (c_send_pp c) (c_pp_every c) in
         (mksrun (fst (shell_step enc_hash true (r_sh st) (r_now st) no_env [] (EConfig (ISetCluster c'))))
-                (r_now st) c' (r_seq st) (r_nseq st), [TS "recluster"; TN 1])
+                (r_now st) c' (r_seq st) (r_nseq st) (r_v6 st) (r_removed st), [TS "recluster"; TN 1])
       | _ => bad end
+    else if name =? "remove" then
+      (* RemoveListener: close_all_flows, then the listener is gone *)
+      (mksrun (fst (shell_step enc_hash true (r_sh st) (r_now st) no_env [] ECloseAll))
+              (r_now st) (r_cfg st) (r_seq st) (r_nseq st) (r_v6 st) true, [TS "remove"; TN 1])
     else bad
   | _ => bad
   end.
@@ -132,4 +142,4 @@ Fixpoint srun_from (st : srun) (ops : list (list tok)) : list (list tok) :=
   end.
 
 Definition run_shell_case (ops : list (list tok)) : list (list tok) :=
-  srun_from (mksrun (shell_new (mgr_new empty_cfg 0 0) listen_addr) 0%N empty_cfg [] 0) ops.
+  srun_from (mksrun (shell_new (mgr_new empty_cfg 0 0) listen_addr) 0%N empty_cfg [] 0 false false) ops.
